@@ -173,8 +173,16 @@ def run_case(spec, j):
       w = rng.uniform(0.5, 2.0, size=len(a))
       sup.set_params(weights=w)
       pfull['weights'] = w
+    # the estimator receives the labels in some container / dtype; the twin
+    # below derives its constraints from the canonical int64 vector
+    forms = ['int64', 'int32', 'float64', 'list']
+    if y.min() >= 0 and y.max() < 256:
+      forms += ['uint8', 'uint16']
+    form = forms[(spec['seed'] + spec['ds']['seed']) % len(forms)]
+    yarg = y.tolist() if form == 'list' else y.astype(form)
+    det['labels_as'] = form
     try:
-      sup.fit(X, y)
+      sup.fit(X, yarg)
     except Exception as e:
       api.set_well_formed(False)
       if name == 'SDML_Supervised' and isinstance(e, RuntimeError):
